@@ -68,7 +68,7 @@ type viol struct {
 // Every step is registered while it runs; a background goroutine reports a step that has been running
 // for more than stuckAfter as a violation (with the operation sequence that led to it) and ends the
 // process with exit 1 - a hung check would otherwise never deliver a verdict.
-const stuckAfter = 20 * time.Second
+const stuckAfter = 60 * time.Second
 
 type inflight struct {
 	since int64 // unix nano, 0 = idle
